@@ -188,6 +188,11 @@ Proof.
   - exfalso. eapply find_input_none; eauto.
 Qed.
 
+Lemma find_input_unique' t r q i c :
+  wf t -> In (r, q, i) (all_paths (t_forest t)) -> i_own i = Some c ->
+  find_input (t_forest t) c (i_pos i) = Some (r, q, i).
+Proof. intros Hwf Hin Hc. apply (find_input_unique t (r, q, i) c (i_pos i)); auto. Qed.
+
 Lemma find_output_some f c p rt :
   find_output f c p = Some rt ->
   In rt f /\ exists o, fst rt = Some o /\ o_own o = Some c /\ o_pos o = p.
@@ -322,8 +327,8 @@ Qed.
 Lemma size_adapter_items nb ts :
   stack_size (adapter_items nb ts) <= list_sum (map tsize ts).
 Proof.
-  induction ts as [|t r IH]; simpl; [lia|].
-  destruct t as [i|a cs]; unfold stack_size in *; simpl in *; unfold item_size at 1; simpl; lia.
+  induction ts as [|t r IH]; [unfold stack_size; simpl; lia|].
+  destruct t as [i|a cs]; unfold stack_size, item_size in *; simpl in *; fold tsize in *; lia.
 Qed.
 
 Lemma existsb_rev {A : Type} (f : A -> bool) l : existsb f (rev l) = existsb f l.
@@ -351,8 +356,8 @@ Proof.
   - rewrite existsb_app, existsb_rev, existsb_adapter_items. reflexivity.
   - rewrite stack_size_app, stack_size_rev.
     pose proof (size_adapter_items (inh || self) ts).
-    unfold stack_size in Hsz |- *; simpl in Hsz. unfold item_size at 1 in Hsz. simpl in Hsz.
-    fold (stack_size rest) in *. fold (stack_size (adapter_items (inh || self) ts)) in *. lia.
+    change (stack_size ((inh, self, ts) :: rest))
+      with (S (list_sum (map tsize ts)) + stack_size rest) in Hsz. lia.
 Qed.
 
 Lemma tviol_spec t : forall nb,
@@ -398,4 +403,603 @@ Proof.
     exists tr, anc, a, cs. auto.
   - intros [tr [anc [a [cs [Htr [Hs [Hl Hnb]]]]]]]. exists tr. split; [assumption|].
     apply tviol_spec. exists anc, a, cs. auto.
+Qed.
+
+(* ========================================================================= *)
+(** * [validate] = conjunction of all checks *)
+
+Lemma run_checks_none l : snd (run_checks l) = None <-> forall ck, In ck l -> snd ck = None.
+Proof.
+  induction l as [|[[[k c] p] r] rest IH]; simpl.
+  - split; [intros _ ck []|reflexivity].
+  - destruct r as [e|]; simpl.
+    + split; [discriminate|]. intros H. specialize (H _ (or_introl eq_refl)). discriminate.
+    + destruct (run_checks rest) as [ev res]; simpl in *. rewrite IH. split.
+      * intros H ck [<-|Hin]; auto.
+      * intros H ck Hin. apply H. right. assumption.
+Qed.
+
+Lemma run_checks_some l fl : snd (run_checks l) = Some fl ->
+  exists k c p e, fl = (k, c, p, e) /\ In (k, c, p, Some e) l.
+Proof.
+  induction l as [|[[[k c] p] r] rest IH]; simpl; [discriminate|].
+  destruct r as [e|]; simpl.
+  - intros [= <-]. exists k, c, p, e. auto.
+  - destruct (run_checks rest) as [ev res]; simpl in *. intros H.
+    destruct (IH H) as [k' [c' [p' [e' [-> Hin]]]]]. exists k', c', p', e'. auto.
+Qed.
+
+Lemma validate_ok_iff t : validate t = VOk <-> forall ck, In ck (all_checks t) -> snd ck = None.
+Proof.
+  unfold validate. rewrite <- run_checks_none.
+  destruct (snd (run_checks (all_checks t))); split; congruence.
+Qed.
+
+Lemma all_checks_ok t :
+  (forall ck, In ck (all_checks t) -> snd ck = None) <->
+  (forall c p, c < n_comps t -> p < n_in t c ->
+     check_input_connected (t_forest t) c p = None /\ check_dead_links (t_forest t) c p = None)
+  /\ (forall c p, c < n_comps t -> p < n_out t c -> check_branching (t_forest t) c p = None)
+  /\ check_missing t = None.
+Proof.
+  unfold all_checks. split.
+  - intros H. repeat split.
+    + apply (H (CkInput, c, p, check_input_connected (t_forest t) c p)).
+      apply in_or_app. left. apply in_flat_map. exists c. split; [apply in_seq; lia|].
+      unfold comp_checks. apply in_or_app. left. apply in_flat_map. exists p.
+      split; [apply in_seq; lia|]. left. reflexivity.
+    + apply (H (CkDead, c, p, check_dead_links (t_forest t) c p)).
+      apply in_or_app. left. apply in_flat_map. exists c. split; [apply in_seq; lia|].
+      unfold comp_checks. apply in_or_app. left. apply in_flat_map. exists p.
+      split; [apply in_seq; lia|]. right. left. reflexivity.
+    + intros c p Hc Hp. apply (H (CkBranch, c, p, check_branching (t_forest t) c p)).
+      apply in_or_app. left. apply in_flat_map. exists c. split; [apply in_seq; lia|].
+      unfold comp_checks. apply in_or_app. right. apply in_map_iff. exists p.
+      split; [reflexivity|apply in_seq; lia].
+    + apply (H (CkMissing, 0, 0, check_missing t)). apply in_or_app. right. left. reflexivity.
+  - intros [Hi [Ho Hm]] ck Hin. apply in_app_or in Hin as [Hin|[<-|[]]]; [|exact Hm].
+    apply in_flat_map in Hin as [c [Hc Hin]]. apply in_seq in Hc.
+    unfold comp_checks in Hin. apply in_app_or in Hin as [Hin|Hin].
+    + apply in_flat_map in Hin as [p [Hp Hin]]. apply in_seq in Hp.
+      destruct (Hi c p) as [H1 H2]; try lia.
+      destruct Hin as [<-|[<-|[]]]; assumption.
+    + apply in_map_iff in Hin as [p [<- Hp]]. apply in_seq in Hp. apply Ho; lia.
+Qed.
+
+Lemma tpath_leaf t : forall q i, tpath t q i -> In i (tleaves t).
+Proof.
+  induction t as [j|a ts IH] using tree_ind'; intros q i H; inversion H; subst; simpl.
+  - left; reflexivity.
+  - apply in_flat_map. eexists. split; [eassumption|].
+    rewrite Forall_forall in IH. eapply IH; eauto.
+Qed.
+
+Lemma leaf_tpath t : forall i, In i (tleaves t) -> exists q, tpath t q i.
+Proof.
+  induction t as [j|a ts IH] using tree_ind'; intros i H; simpl in H.
+  - destruct H as [<-|[]]. exists []. constructor.
+  - apply in_flat_map in H as [t' [Ht' Hi]]. rewrite Forall_forall in IH.
+    destruct (IH t' Ht' i Hi) as [q Hq]. exists ((a, ts) :: q). econstructor; eauto.
+Qed.
+
+(* ========================================================================= *)
+(** * Exactness *)
+
+Lemma fpath_in t pa : fpath (t_forest t) pa -> In pa (all_paths (t_forest t)).
+Proof. apply all_paths_spec. Qed.
+
+Lemma validate_ok_no_defect t : wf t -> validate t = VOk -> ~ defect t.
+Proof.
+  intros Hwf Hok. pose proof (proj1 (validate_ok_iff t) Hok) as Hall.
+  destruct (proj1 (all_checks_ok t) Hall) as [Hi [Ho Hm]].
+  intros [Hd|[Hd|[Hd|[Hd|Hd]]]].
+  - (* unconnected *)
+    destruct Hd as [c [p [Hc [Hp Hno]]]]. destruct (Hi c p Hc Hp) as [H1 _].
+    unfold check_input_connected in H1.
+    destruct (find_input (t_forest t) c p) as [[[[o|] q] i]|] eqn:E; try discriminate.
+    apply find_input_some in E as [Hin [Hc' Hp']]. apply Hno. exists o, q, i.
+    split; [apply all_paths_spec; assumption|auto].
+  - (* static *)
+    destruct Hd as [o [q [i [c [Hpa [Hc [Hs Hos]]]]]]]. apply fpath_in in Hpa.
+    destruct (wf_range_i t _ c Hwf Hpa Hc) as [Hcn Hpn].
+    destruct (Hi c _ Hcn Hpn) as [H1 _]. unfold check_input_connected in H1.
+    rewrite (find_input_unique t _ c _ Hwf Hpa Hc eq_refl) in H1. simpl in H1.
+    rewrite Hs, Hos in H1. discriminate.
+  - (* missing *)
+    destruct Hd as [o [q [i [Hpa Hd]]]]. unfold check_missing in Hm.
+    destruct Hd as [[Hi' Ho']|[Ho' Hi']].
+    + destruct (i_own i) as [c|] eqn:Hc; [|congruence]. pose proof (fpath_in _ _ Hpa) as Hin.
+      destruct (wf_range_i t _ c Hwf Hin Hc) as [Hcn Hpn].
+      assert (Hup : In (Some o) (up_roots t)).
+      { unfold up_roots. apply in_flat_map. exists (c, i_pos i). split; [apply in_in_keys; auto|].
+        simpl. rewrite (find_input_unique' t _ _ _ c Hwf Hin Hc). left. reflexivity. }
+      destruct (existsb _ (down_leaves t)); [discriminate|].
+      match type of Hm with (if ?b then _ else _) = _ => assert (Hb : b = true) end.
+      { apply existsb_exists. exists (Some o). split; [assumption|]. rewrite Ho'. reflexivity. }
+      rewrite Hb in Hm. discriminate.
+    + destruct (o_own o) as [c|] eqn:Hc; [|congruence].
+      destruct Hpa as [ts [tr [Hrt [Htr Htp]]]]. simpl in *.
+      destruct (wf_range_o t o ts c Hwf Hrt Hc) as [Hcn Hpn].
+      assert (Hdn : In i (down_leaves t)).
+      { unfold down_leaves. apply in_flat_map. exists (c, o_pos o). split; [apply in_out_keys; auto|].
+        simpl. rewrite (find_output_unique t o ts c _ Hwf Hrt Hc eq_refl). simpl.
+        apply in_flat_map. exists tr. split; [assumption|]. eapply tpath_leaf; eauto. }
+      match type of Hm with (if ?b then _ else _) = _ => assert (Hb : b = true) end.
+      { apply existsb_exists. exists i. split; [assumption|]. rewrite Hi'. reflexivity. }
+      rewrite Hb in Hm. discriminate.
+  - (* branching *)
+    destruct Hd as [o [ts [c [tr [anc [a [cs [Hrt [Hc [Htr [Hs [Hl Hb]]]]]]]]]]]].
+    destruct (wf_range_o t o ts c Hwf Hrt Hc) as [Hcn Hpn].
+    specialize (Ho c _ Hcn Hpn). unfold check_branching in Ho.
+    rewrite (find_output_unique t o ts c _ Hwf Hrt Hc eq_refl) in Ho.
+    assert (Hbr : branch_loop (2 + list_sum (map tsize ts)) [(false, false, ts)] = true).
+    { apply branching_spec. exists tr, anc, a, cs. auto. }
+    rewrite Hbr in Ho. discriminate.
+  - (* dead link *)
+    destruct Hd as [o [q [i [c [Hpa [Hc Hfl]]]]]]. apply fpath_in in Hpa.
+    destruct (wf_range_i t _ c Hwf Hpa Hc) as [Hcn Hpn].
+    destruct (Hi c _ Hcn Hpn) as [_ H2]. unfold check_dead_links in H2.
+    rewrite (find_input_unique t _ c _ Hwf Hpa Hc eq_refl) in H2.
+    assert (Hdl : dead_loop false (path_flags (Some o, q, i)) = true)
+      by (apply dead_loop_false_spec; exact Hfl).
+    rewrite Hdl in H2. discriminate.
+Qed.
+
+(** an input of the composition whose upward walk does not end at an output is unconnected *)
+Lemma not_some_root_unconnected t c p :
+  wf t -> c < n_comps t -> p < n_in t c ->
+  (forall o q i, find_input (t_forest t) c p <> Some (Some o, q, i)) -> unconnected t.
+Proof.
+  intros Hwf Hc Hp Hno. exists c, p. repeat split; auto.
+  intros [o [q [i [Hpa [Hc' Hp']]]]]. apply fpath_in in Hpa.
+  apply (Hno o q i). apply (find_input_unique t _ c p Hwf Hpa); assumption.
+Qed.
+
+Lemma no_defect_validate_ok t : wf t -> ~ defect t -> validate t = VOk.
+Proof.
+  intros Hwf Hnd. apply (proj2 (validate_ok_iff t)). apply (proj2 (all_checks_ok t)).
+  split; [intros c p Hc Hp; split|split].
+  - (* _check_input_connected *)
+    unfold check_input_connected.
+    destruct (find_input (t_forest t) c p) as [[[[o|] q] i]|] eqn:E.
+    + destruct (i_static i && negb (o_static o)) eqn:Es; [|reflexivity].
+      exfalso. apply Hnd. right. left.
+      apply andb_true_iff in Es as [Hs Ho]. apply negb_true_iff in Ho.
+      apply find_input_some in E as [Hin [Hc' _]]. exists o, q, i, c.
+      split; [apply all_paths_spec; assumption|auto].
+    + exfalso. apply Hnd. left. apply (not_some_root_unconnected t c p); auto. congruence.
+    + exfalso. apply Hnd. left. apply (not_some_root_unconnected t c p); auto. congruence.
+  - (* _check_dead_links *)
+    unfold check_dead_links.
+    destruct (find_input (t_forest t) c p) as [[[[o|] q] i]|] eqn:E; [| |reflexivity].
+    + destruct (dead_loop false (path_flags (Some o, q, i))) eqn:Ed; [|reflexivity].
+      exfalso. apply Hnd. do 4 right. apply dead_loop_false_spec in Ed.
+      apply find_input_some in E as [Hin [Hc' _]]. exists o, q, i, c.
+      split; [apply all_paths_spec; assumption|auto].
+    + exfalso. apply Hnd. left. apply (not_some_root_unconnected t c p); auto. congruence.
+  - (* _check_branching *)
+    intros c p Hc Hp. unfold check_branching.
+    destruct (find_output (t_forest t) c p) as [[r ts]|] eqn:E; [|reflexivity].
+    destruct (branch_loop _ _) eqn:Eb; [|reflexivity].
+    exfalso. apply Hnd. do 3 right. left.
+    apply find_output_some in E as [Hin [o [Hr [Hc' _]]]]. simpl in Hr. subst r.
+    apply branching_spec in Eb as [tr [anc [a [cs [Htr [Hs [Hl Hb]]]]]]].
+    exists o, ts, c, tr, anc, a, cs. do 5 (split; [assumption|]). assumption.
+  - (* _check_missing_components *)
+    unfold check_missing.
+    destruct (existsb _ (down_leaves t)) eqn:E1.
+    + exfalso. apply Hnd. do 2 right. left.
+      apply existsb_exists in E1 as [i [Hi Hown]]. unfold down_leaves in Hi.
+      apply in_flat_map in Hi as [[c p] [_ Hi]]. simpl in Hi.
+      destruct (find_output (t_forest t) c p) as [[r ts]|] eqn:E; [|contradiction].
+      apply find_output_some in E as [Hin [o [Hr [Hc' _]]]]. simpl in Hr, Hi. subst r.
+      apply in_flat_map in Hi as [tr [Htr Hi]]. destruct (leaf_tpath tr i Hi) as [q Hq].
+      exists o, q, i. split; [exists ts, tr; auto|]. right.
+      destruct (i_own i); [discriminate|]. split; congruence.
+    + destruct (existsb _ (up_roots t)) eqn:E2; [|reflexivity].
+      exfalso. apply existsb_exists in E2 as [r [Hr Hown]]. unfold up_roots in Hr.
+      apply in_flat_map in Hr as [[c p] [Hk Hr]]. simpl in Hr. apply in_in_keys in Hk as [Hc Hp].
+      destruct (find_input (t_forest t) c p) as [[[r' q] i]|] eqn:E; [|contradiction].
+      destruct Hr as [<-|[]]. unfold p_root in Hown. simpl in Hown.
+      destruct r' as [o|].
+      * apply Hnd. do 2 right. left. apply find_input_some in E as [Hin [Hc' _]].
+        exists o, q, i. split; [apply all_paths_spec; assumption|]. left.
+        simpl in Hc'. destruct (o_own o); [discriminate|]. split; congruence.
+      * apply Hnd. left. apply (not_some_root_unconnected t c p); auto. congruence.
+Qed.
+
+Theorem validate_exact t :
+  wf t ->
+  (validate t = VOk <-> ~ defect t)
+  /\ (~ defect t -> snd (validate_composition t) = RDone /\ snd (connect false t) = RDone)
+  /\ (defect t -> snd (validate_composition t) = RRaised ConnectError
+                  /\ snd (connect false t) = RRaised ConnectError).
+Proof.
+  intros Hwf.
+  assert (Hiff : validate t = VOk <-> ~ defect t)
+    by (split; [apply validate_ok_no_defect|apply no_defect_validate_ok]; assumption).
+  split; [exact Hiff|]. split.
+  - intros Hnd. apply Hiff in Hnd. unfold validate in Hnd. unfold connect, validate_composition.
+    destruct (run_checks (all_checks t)) as [ev [fl|]]; simpl in *; [discriminate|auto].
+  - intros Hd. assert (Hne : validate t <> VOk) by (intros H; apply Hiff in H; contradiction).
+    unfold validate in Hne. unfold connect, validate_composition.
+    destruct (run_checks (all_checks t)) as [ev [fl|]]; simpl in *; [auto|congruence].
+Qed.
+
+(* ========================================================================= *)
+(** * Event order of [Composition.connect] *)
+
+Definition ev_of_check (ck : check) : event :=
+  EvCheck (fst (fst (fst ck))) (snd (fst (fst ck))) (snd (fst ck)).
+Definition check_events (t : topo) : list event := map ev_of_check (all_checks t).
+
+(** a component is asked to connect, or a slot exchanges pings / infos / data *)
+Definition is_exchange (e : event) : bool :=
+  match e with EvConnect _ | EvExchange => true | _ => false end.
+
+Lemma run_checks_events_ok l :
+  snd (run_checks l) = None -> fst (run_checks l) = map ev_of_check l.
+Proof.
+  induction l as [|[[[k c] p] r] rest IH]; simpl; [reflexivity|].
+  destruct r as [e|]; simpl; [discriminate|].
+  destruct (run_checks rest) as [ev res]; simpl in *. intros H. rewrite IH; auto.
+Qed.
+
+Lemma run_checks_no_exchange l e : In e (fst (run_checks l)) -> is_exchange e = false.
+Proof.
+  induction l as [|[[[k c] p] r] rest IH]; simpl; [contradiction|].
+  destruct r as [x|]; simpl.
+  - intros [<-|[<-|[]]]; reflexivity.
+  - destruct (run_checks rest) as [ev res]; simpl in *. intros [<-|H]; auto.
+Qed.
+
+Theorem connect_order t already ev r :
+  connect already t = (ev, r) ->
+  (forall pre e post, ev = pre ++ e :: post -> is_exchange e = true ->
+     already = false /\ validate t = VOk /\ exists pre', pre = check_events t ++ pre')
+  /\ (validate t <> VOk -> already = false ->
+      r = RRaised ConnectError /\ forall e, In e ev -> is_exchange e = false).
+Proof.
+  unfold connect, validate_composition, validate, check_events.
+  destruct already.
+  - intros [= <- <-]. split.
+    + intros pre e post H. destruct pre; discriminate.
+    + intros _ [=].
+  - pose proof (run_checks_events_ok (all_checks t)) as Hev.
+    pose proof (run_checks_no_exchange (all_checks t)) as Hne.
+    destruct (run_checks (all_checks t)) as [ev0 [fl|]]; simpl in *.
+    + intros [= <- <-]. split.
+      * intros pre e post -> He. rewrite (Hne e) in He; [discriminate|].
+        apply in_or_app. right. left. reflexivity.
+      * intros _ _. split; [reflexivity|exact Hne].
+    + intros [= <- <-]. rewrite (Hev eq_refl) in *. split.
+      * intros pre e post Heq He. split; [reflexivity|]. split; [reflexivity|].
+        apply app_eq_app in Heq as [l [[H1 H2]|[H1 H2]]].
+        -- destruct l as [|x l].
+           ++ exists []. rewrite app_nil_r in H1. rewrite app_nil_r. auto.
+           ++ simpl in H2. injection H2 as Hx _. subst x.
+              rewrite (Hne e) in He; [discriminate|]. rewrite H1.
+              apply in_or_app. right. left. reflexivity.
+        -- exists l. assumption.
+      * intros H; contradiction.
+Qed.
+
+(* ========================================================================= *)
+(** * The reported link list *)
+
+(** Specification: the links created by [src >> t] for every tree, top down. *)
+Fixpoint tlinks (src : lnode) (t : tree) : list link :=
+  (src, head_node t) ::
+  match t with
+  | Leaf _ => []
+  | Node a ts => flat_map (tlinks (NAda (a_id a))) ts
+  end.
+
+Definition rlinks (rt : rtree) : list link :=
+  match fst rt with
+  | Some o => flat_map (tlinks (NOut (o_own o) (o_pos o))) (snd rt)
+  | None => flat_map (fun t => match t with
+                               | Leaf _ => []
+                               | Node a ts => flat_map (tlinks (NAda (a_id a))) ts
+                               end) (snd rt)
+  end.
+
+(** a link tree touches the composition when its output or one of its inputs belongs to a
+    component of the composition *)
+Definition touches (rt : rtree) : bool :=
+  owned_root rt || existsb (fun i => negb (is_none (i_own i))) (flat_map tleaves (snd rt)).
+
+Definition created_links (t : topo) : list link := flat_map rlinks (filter touches (t_forest t)).
+
+(* ---- list helpers ---- *)
+
+Lemma NoDup_app_iff {A : Type} (a b : list A) :
+  NoDup (a ++ b) <-> NoDup a /\ NoDup b /\ (forall x, In x a -> ~ In x b).
+Proof.
+  induction a as [|x a IH]; simpl.
+  - split; [intros H; repeat split; auto; constructor|tauto].
+  - split.
+    + intros H. inversion H as [|? ? Hn Hnd]; subst. apply IH in Hnd as [Ha [Hb Hd]].
+      repeat split; auto.
+      * constructor; auto. intros Hx. apply Hn. apply in_or_app; auto.
+      * intros y [<-|Hy]; [intros Hx; apply Hn; apply in_or_app; auto|auto].
+    + intros [Ha [Hb Hd]]. inversion Ha as [|? ? Hn Hnd]; subst. constructor.
+      * intros Hx. apply in_app_or in Hx as [Hx|Hx]; [auto|]. apply (Hd x); auto.
+      * apply IH. repeat split; auto.
+Qed.
+
+Lemma flat_map_flat_map {A B C : Type} (f : B -> list C) (g : A -> list B) l :
+  flat_map f (flat_map g l) = flat_map (fun x => flat_map f (g x)) l.
+Proof.
+  induction l as [|x r IH]; simpl; [reflexivity|]. rewrite flat_map_app, IH. reflexivity.
+Qed.
+
+Lemma Permutation_flat_map_pointwise {A B : Type} (f g : A -> list B) l :
+  (forall x, In x l -> Permutation (f x) (g x)) -> Permutation (flat_map f l) (flat_map g l).
+Proof.
+  induction l as [|x r IH]; simpl; intros H; [constructor|].
+  apply Permutation_app; [apply H; auto|apply IH; auto].
+Qed.
+
+Lemma flat_map_split {A B : Type} (f g : A -> list B) l :
+  Permutation (flat_map (fun x => f x ++ g x) l) (flat_map f l ++ flat_map g l).
+Proof.
+  induction l as [|x r IH]; simpl; [constructor|].
+  rewrite IH. rewrite <- !app_assoc. apply Permutation_app_head.
+  apply Permutation_app_swap_app.
+Qed.
+
+Lemma NoDup_map_flat_filter {A B C : Type} (k : B -> C) (h : A -> list B) (P : A -> bool) l :
+  NoDup (map k (flat_map h l)) -> NoDup (map k (flat_map h (filter P l))).
+Proof.
+  induction l as [|x r IH]; simpl; [auto|].
+  rewrite map_app. intros H. apply NoDup_app_iff in H as [Ha [Hb Hd]].
+  destruct (P x); simpl; [|auto].
+  rewrite map_app. apply NoDup_app_iff. repeat split; auto.
+  intros y Hy Hy'. apply (Hd y Hy).
+  apply in_map_iff in Hy' as [z [<- Hz]]. apply in_map. apply in_flat_map in Hz as [w [Hw Hz]].
+  apply in_flat_map. exists w. split; [|assumption]. apply filter_In in Hw. tauto.
+Qed.
+
+(* ---- the adapter set ---- *)
+
+Definition nid (n : anode) : nat := a_id (fst n).
+
+Lemma mem_spec id seen : existsb (Nat.eqb id) seen = true <-> In id seen.
+Proof.
+  rewrite existsb_exists. split.
+  - intros [y [Hy He]]. apply Nat.eqb_eq in He. subst. assumption.
+  - intros H. exists id. split; [assumption|apply Nat.eqb_refl].
+Qed.
+
+Lemma dedupe_in l : forall seen x, In x (dedupe seen l) -> In x l /\ ~ In (nid x) seen.
+Proof.
+  induction l as [|n r IH]; simpl; intros seen x H; [contradiction|].
+  destruct (existsb (Nat.eqb (a_id (fst n))) seen) eqn:E.
+  - apply IH in H. tauto.
+  - destruct H as [<-|H].
+    + split; auto. intros Hin. apply mem_spec in Hin. unfold nid in Hin. congruence.
+    + apply IH in H as [H1 H2]. split; auto. intros Hin. apply H2. right. assumption.
+Qed.
+
+Lemma dedupe_nodup l : forall seen, NoDup (map nid (dedupe seen l)).
+Proof.
+  induction l as [|n r IH]; simpl; intros seen; [constructor|].
+  destruct (existsb (Nat.eqb (a_id (fst n))) seen) eqn:E; [apply IH|].
+  simpl. constructor; [|apply IH].
+  intros Hin. apply in_map_iff in Hin as [y [Hy Hin]]. apply dedupe_in in Hin as [_ Hn].
+  apply Hn. left. unfold nid in *. congruence.
+Qed.
+
+Lemma dedupe_complete l : forall seen x,
+  In x l -> ~ In (nid x) seen -> exists y, In y (dedupe seen l) /\ nid y = nid x.
+Proof.
+  induction l as [|n r IH]; simpl; intros seen x Hx Hns; [contradiction|].
+  destruct (existsb (Nat.eqb (a_id (fst n))) seen) eqn:E.
+  - destruct Hx as [->|Hx]; [|apply IH; auto].
+    exfalso. apply Hns. apply mem_spec. exact E.
+  - destruct Hx as [->|Hx]; [exists x; simpl; auto|].
+    destruct (Nat.eq_dec (nid x) (nid n)) as [Heq|Hne].
+    + exists n. simpl. auto.
+    + destruct (IH (a_id (fst n) :: seen) x Hx) as [y [Hy Hid]].
+      * intros [H|H]; [apply Hne; unfold nid in *; congruence|auto].
+      * exists y. simpl. auto.
+Qed.
+
+Lemma dedupe_perm L U :
+  NoDup (map nid U) -> (forall x, In x L <-> In x U) -> Permutation (dedupe [] L) U.
+Proof.
+  intros Hnd Hiff. apply NoDup_Permutation.
+  - apply (NoDup_map_inv nid). apply dedupe_nodup.
+  - apply (NoDup_map_inv nid). assumption.
+  - intros x. split.
+    + intros H. apply dedupe_in in H as [H _]. apply Hiff. assumption.
+    + intros H. destruct (dedupe_complete L [] x) as [y [Hy Hid]]; [apply Hiff; assumption|auto|].
+      assert (y = x); [|subst; assumption].
+      apply (NoDup_map_inj nid U); auto. apply Hiff. apply dedupe_in in Hy. tauto.
+Qed.
+
+(* ---- links of a tree, node by node ---- *)
+
+Lemma tlinks_nodes t : forall s,
+  Permutation (tlinks s t) ((s, head_node t) :: flat_map node_links (tnodes t)).
+Proof.
+  induction t as [j|a ts IH] using tree_ind'; intros s; simpl; [reflexivity|].
+  apply perm_skip. unfold node_links at 1. simpl.
+  rewrite Forall_forall in IH. clear s.
+  induction ts as [|t r IHr]; simpl; [constructor|].
+  rewrite flat_map_app. rewrite (IH t (or_introl eq_refl)). simpl. apply perm_skip.
+  rewrite IHr by (intros x Hx; apply IH; right; assumption).
+  rewrite Permutation_app_swap_app. rewrite app_assoc. reflexivity.
+Qed.
+
+Lemma flat_tlinks_nodes s ts :
+  Permutation (flat_map (tlinks s) ts)
+              (map (fun t => (s, head_node t)) ts ++ flat_map node_links (flat_map tnodes ts)).
+Proof.
+  induction ts as [|t r IH]; simpl; [constructor|].
+  rewrite flat_map_app, tlinks_nodes, IH. simpl. apply perm_skip.
+  rewrite Permutation_app_swap_app. reflexivity.
+Qed.
+
+Definition root_links (rt : rtree) : list link :=
+  match rt with (Some o, ts) => out_links o ts | _ => [] end.
+
+Lemma rlinks_owned rt :
+  owned_root rt = true ->
+  Permutation (rlinks rt) (root_links rt ++ flat_map node_links (flat_map tnodes (snd rt))).
+Proof.
+  destruct rt as [[o|] ts]; unfold owned_root, rlinks; simpl; [|discriminate].
+  intros _. apply flat_tlinks_nodes.
+Qed.
+
+(* ---- which trees and adapters the composition sees ---- *)
+
+Lemma tpath_nodes t : forall q i x, tpath t q i -> In x q -> In x (tnodes t).
+Proof.
+  induction t as [j|a ts IH] using tree_ind'; intros q i x H Hx; inversion H; subst.
+  - contradiction.
+  - simpl. destruct Hx as [<-|Hx]; [left; reflexivity|]. right.
+    apply in_flat_map. eexists. split; [eassumption|].
+    rewrite Forall_forall in IH. eapply IH; eauto.
+Qed.
+
+(** in a defect-free topology, a tree with an input of the composition starts at an output of
+    the composition *)
+Lemma owned_leaf_owned_root t r ts tr q i c :
+  wf t -> ~ defect t -> In (r, ts) (t_forest t) -> In tr ts -> tpath tr q i -> i_own i = Some c ->
+  owned_root (r, ts) = true.
+Proof.
+  intros Hwf Hnd Hrt Htr Htp Hc.
+  assert (Hpa : fpath (t_forest t) (r, q, i)) by (exists ts, tr; auto).
+  pose proof (fpath_in _ _ Hpa) as Hin.
+  destruct (wf_range_i t _ c Hwf Hin Hc) as [Hcn Hpn]. simpl in Hpn.
+  destruct r as [o|].
+  - unfold owned_root. simpl. destruct (o_own o) eqn:Ho; [reflexivity|].
+    exfalso. apply Hnd. do 2 right. left. exists o, q, i. split; [assumption|]. left.
+    split; congruence.
+  - exfalso. apply Hnd. left. apply (not_some_root_unconnected t c (i_pos i)); auto.
+    rewrite (find_input_unique' t _ _ _ c Hwf Hin Hc). congruence.
+Qed.
+
+Lemma touches_owned t rt :
+  wf t -> ~ defect t -> In rt (t_forest t) -> touches rt = owned_root rt.
+Proof.
+  intros Hwf Hnd Hin. unfold touches. destruct (owned_root rt) eqn:E; [reflexivity|]. simpl.
+  destruct (existsb _ _) eqn:Ex; [|reflexivity].
+  apply existsb_exists in Ex as [i [Hi Hown]]. destruct rt as [r ts]. simpl in Hi.
+  apply in_flat_map in Hi as [tr [Htr Hi]]. destruct (leaf_tpath tr i Hi) as [q Hq].
+  destruct (i_own i) as [c|] eqn:Hc; [|discriminate].
+  rewrite <- E. symmetry. eapply owned_leaf_owned_root; eauto.
+Qed.
+
+Definition found_roots (t : topo) : list rtree :=
+  flat_map (fun k => match find_output (t_forest t) (fst k) (snd k) with
+                     | Some rt => [rt]
+                     | None => []
+                     end) (out_keys t).
+
+Lemma keys_nodup (m : nat -> nat) n : forall a,
+  NoDup (flat_map (fun c => map (fun p => (c, p)) (seq 0 (m c))) (seq a n)).
+Proof.
+  induction n as [|n IH]; intros a; simpl; [constructor|].
+  apply NoDup_app_iff. repeat split.
+  - apply FinFun.Injective_map_NoDup; [intros x y [=]; auto|apply seq_NoDup].
+  - apply IH.
+  - intros [c p] H1 H2. apply in_map_iff in H1 as [p' [[= <- <-] _]].
+    apply in_flat_map in H2 as [c' [Hc' H2]]. apply in_map_iff in H2 as [p'' [[= -> _] _]].
+    apply in_seq in Hc'. lia.
+Qed.
+
+Lemma found_roots_nodup_keys f l :
+  NoDup l ->
+  NoDup (map okey (flat_map (fun k => match find_output f (fst k) (snd k) with
+                                      | Some rt => [rt]
+                                      | None => []
+                                      end) l)).
+Proof.
+  induction l as [|[c p] r IH]; simpl; intros Hnd; [constructor|].
+  inversion Hnd as [|? ? Hn Hnd']; subst. rewrite map_app. apply NoDup_app_iff.
+  split; [|split; [apply IH; assumption|]].
+  - destruct (find_output f c p); simpl; repeat constructor. intros [].
+  - intros key H1 H2. destruct (find_output f c p) as [rt|] eqn:E; [|contradiction].
+    destruct H1 as [<-|[]]. apply in_map_iff in H2 as [rt' [Hk H2]].
+    apply in_flat_map in H2 as [[c' p'] [Hin H2]]. simpl in H2.
+    destruct (find_output f c' p') as [rt''|] eqn:E'; [|contradiction].
+    destruct H2 as [->|[]].
+    apply find_output_some in E as [_ [o [Ho [Hc Hp]]]].
+    apply find_output_some in E' as [_ [o' [Ho' [Hc' Hp']]]].
+    unfold okey in Hk. rewrite Ho, Ho' in Hk. apply Hn.
+    assert (Heq : (c, p) = (c', p')) by (f_equal; congruence). rewrite Heq. assumption.
+Qed.
+
+Lemma found_roots_perm t : wf t -> Permutation (found_roots t) (filter owned_root (t_forest t)).
+Proof.
+  intros Hwf. apply NoDup_Permutation.
+  - apply (NoDup_map_inv okey). apply found_roots_nodup_keys. apply keys_nodup.
+  - apply (NoDup_map_inv okey). apply Hwf.
+  - intros rt. unfold found_roots. rewrite in_flat_map, filter_In. split.
+    + intros [[c p] [_ H]]. simpl in H.
+      destruct (find_output (t_forest t) c p) as [rt'|] eqn:E; [|contradiction].
+      destruct H as [->|[]]. apply find_output_some in E as [Hin [o [Ho [Hc _]]]].
+      split; [assumption|]. unfold owned_root. rewrite Ho, Hc. reflexivity.
+    + intros [Hin Ho]. destruct rt as [[o|] ts]; unfold owned_root in Ho; simpl in Ho; [|discriminate].
+      destruct (o_own o) as [c|] eqn:Hc; [|discriminate].
+      destruct (wf_range_o t o ts c Hwf Hin Hc) as [Hcn Hpn].
+      exists (c, o_pos o). split; [apply in_out_keys; auto|]. simpl.
+      rewrite (find_output_unique t o ts c _ Hwf Hin Hc eq_refl). left. reflexivity.
+Qed.
+
+Definition owned_nodes (t : topo) : list anode :=
+  flat_map (fun rt => flat_map tnodes (snd rt)) (filter owned_root (t_forest t)).
+
+Lemma collect_raw_iff t x :
+  wf t -> ~ defect t -> (In x (collect_raw t) <-> In x (owned_nodes t)).
+Proof.
+  intros Hwf Hnd. unfold collect_raw, owned_nodes. rewrite !in_flat_map. split.
+  - intros [c [Hc Hx]]. apply in_app_or in Hx as [Hx|Hx].
+    + apply in_flat_map in Hx as [p [Hp Hx]].
+      destruct (find_input (t_forest t) c p) as [[[r q] i]|] eqn:E; [|contradiction].
+      apply in_rev in Hx. simpl in Hx. apply find_input_some in E as [Hin [Hc' _]].
+      apply all_paths_spec in Hin as [ts [tr [Hrt [Htr Htp]]]]. simpl in *.
+      exists (r, ts). split.
+      * apply filter_In. split; [assumption|]. eapply owned_leaf_owned_root; eauto.
+      * simpl. apply in_flat_map. exists tr. split; [assumption|]. eapply tpath_nodes; eauto.
+    + apply in_flat_map in Hx as [p [Hp Hx]].
+      destruct (find_output (t_forest t) c p) as [rt|] eqn:E; [|contradiction].
+      apply find_output_some in E as [Hin [o [Ho [Hc' _]]]]. exists rt. split; [|assumption].
+      apply filter_In. split; [assumption|]. unfold owned_root. rewrite Ho, Hc'. reflexivity.
+  - intros [rt [Hrt Hx]]. apply filter_In in Hrt as [Hin Ho].
+    destruct rt as [[o|] ts]; unfold owned_root in Ho; simpl in Ho; [|discriminate].
+    destruct (o_own o) as [c|] eqn:Hc; [|discriminate].
+    destruct (wf_range_o t o ts c Hwf Hin Hc) as [Hcn Hpn].
+    exists c. split; [apply in_seq; lia|]. apply in_or_app. right.
+    apply in_flat_map. exists (o_pos o). split; [apply in_seq; lia|].
+    rewrite (find_output_unique t o ts c _ Hwf Hin Hc eq_refl). assumption.
+Qed.
+
+Lemma collect_adapters_perm t :
+  wf t -> ~ defect t -> Permutation (collect_adapters t) (owned_nodes t).
+Proof.
+  intros Hwf Hnd. unfold collect_adapters. apply dedupe_perm.
+  - unfold owned_nodes. apply NoDup_map_flat_filter. apply Hwf.
+  - intros x. apply collect_raw_iff; assumption.
+Qed.
+
+Theorem links_exact t :
+  wf t -> validate t = VOk -> Permutation (metadata_links t) (created_links t).
+Proof.
+  intros Hwf Hok. pose proof (validate_ok_no_defect t Hwf Hok) as Hnd.
+  unfold metadata_links, created_links.
+  rewrite (filter_ext_in touches owned_root) by (intros rt Hin; apply (touches_owned t); assumption).
+  rewrite (Permutation_flat_map_pointwise rlinks
+             (fun rt => root_links rt ++ flat_map node_links (flat_map tnodes (snd rt))))
+    by (intros rt Hin; apply rlinks_owned; apply filter_In in Hin; tauto).
+  rewrite flat_map_split.
+  apply Permutation_app.
+  - rewrite <- (found_roots_perm t Hwf). unfold found_roots. rewrite flat_map_flat_map.
+    apply Permutation_flat_map_pointwise. intros [c p] _. simpl.
+    destruct (find_output (t_forest t) c p) as [[[o|] ts]|]; simpl; rewrite ?app_nil_r; reflexivity.
+  - rewrite (collect_adapters_perm t Hwf Hnd). unfold owned_nodes. rewrite flat_map_flat_map.
+    reflexivity.
 Qed.
